@@ -5,25 +5,35 @@ Local Open Scope string_scope.
 Local Open Scope list_scope.
 From PV Require Import C29.NamesModel.
 
-(* the module name is the file name without extension whenever "_mod" is spelled in lower
-   case or is absent in every spelling *)
+(* the code as it is: the module name is the file name without extension whenever "_mod" is
+   spelled in lower case or is absent in every spelling *)
 Lemma names_match_partial_ : forall modname tag,
-  suffix_case_ok modname = true -> module_name modname tag = file_stem modname tag.
+  suffix_case_ok modname = true -> module_name false modname tag = file_stem modname tag.
 Proof.
   intros m tag H. unfold suffix_case_ok in H. apply Bool.eqb_prop in H.
-  unfold module_name, file_stem, new_name, old_base. rewrite <- H.
+  unfold module_name, file_stem, new_name, old_base, has_suffix. rewrite <- H.
   destruct (endswith m (S_ "_mod")); reflexivity.
+Qed.
+
+(* the repaired variant: for every name *)
+Lemma names_match_fixed_ : forall modname tag, module_name true modname tag = file_stem modname tag.
+Proof.
+  intros m tag. unfold module_name, file_stem, new_name, old_base, has_suffix.
+  change (lower (S_ "_mod")) with (S_ "_mod").
+  destruct (endswith (lower m) (S_ "_mod")); reflexivity.
 Qed.
 
 (* whatever the spelling, module and routine names carry the index tag of the file and end in
    "_mod" / "_code" *)
-Lemma module_tagged_ : forall modname tag, exists p, module_name modname tag = p ++ tag ++ S_ "_mod".
+Lemma module_tagged_ : forall ci modname tag,
+  exists p, module_name ci modname tag = p ++ tag ++ S_ "_mod".
 Proof.
-  intros m tag. unfold module_name, new_name. destruct (endswith m (S_ "_mod")); eauto.
+  intros ci m tag. unfold module_name, new_name. destruct (has_suffix ci m (S_ "_mod")); eauto.
 Qed.
-Lemma routine_tagged_ : forall kname tag, exists p, routine_name kname tag = p ++ tag ++ S_ "_code".
+Lemma routine_tagged_ : forall ci kname tag,
+  exists p, routine_name ci kname tag = p ++ tag ++ S_ "_code".
 Proof.
-  intros k tag. unfold routine_name, new_name. destruct (endswith k (S_ "_code")); eauto.
+  intros ci k tag. unfold routine_name, new_name. destruct (has_suffix ci k (S_ "_code")); eauto.
 Qed.
 Lemma file_tagged_ : forall modname tag, exists p, file_name modname tag = p ++ tag ++ S_ "_mod.f90".
 Proof.
@@ -31,12 +41,13 @@ Proof.
   rewrite <- !app_assoc. reflexivity.
 Qed.
 
-(* FULL STATEMENT (false):  forall modname tag, module_name modname tag = file_stem modname tag.
+(* FULL STATEMENT (false of the code as it is):
+     forall modname tag, module_name false modname tag = file_stem modname tag.
    `use testkern_MOD` in the algorithm layer is legal Fortran and gives module_name
    "testkern_MOD": the file is testkern_0_mod.f90, the module in it testkern_MOD_0_mod --
    different even when compared case-insensitively. *)
 Lemma names_match_refuted_ :
-  exists modname tag, lower (module_name modname tag) <> lower (file_stem modname tag).
+  exists modname tag, lower (module_name false modname tag) <> lower (file_stem modname tag).
 Proof.
   exists (S_ "testkern_MOD"), (S_ "_0"). vm_compute. discriminate.
 Qed.
@@ -45,9 +56,10 @@ Example names_nonvacuous :
   suffix_case_ok (S_ "testkern_mod") = true /\ suffix_case_ok (S_ "TESTKERN_mod") = true /\
   suffix_case_ok (S_ "testkern") = true /\ suffix_case_ok (S_ "testkern_MOD") = false /\
   file_name (S_ "testkern_mod") (S_ "_3") = S_ "testkern_3_mod.f90" /\
-  module_name (S_ "testkern_mod") (S_ "_3") = S_ "testkern_3_mod" /\
-  routine_name (S_ "testkern_code") (S_ "_3") = S_ "testkern_3_code" /\
-  module_name (S_ "testkern") (S_ "_0") = S_ "testkern_0_mod" /\
-  module_name (S_ "testkern_MOD") (S_ "_0") = S_ "testkern_MOD_0_mod" /\
+  module_name false (S_ "testkern_mod") (S_ "_3") = S_ "testkern_3_mod" /\
+  routine_name false (S_ "testkern_code") (S_ "_3") = S_ "testkern_3_code" /\
+  module_name false (S_ "testkern") (S_ "_0") = S_ "testkern_0_mod" /\
+  module_name false (S_ "testkern_MOD") (S_ "_0") = S_ "testkern_MOD_0_mod" /\
+  module_name true (S_ "testkern_MOD") (S_ "_0") = S_ "testkern_0_mod" /\
   file_name (S_ "testkern_MOD") (S_ "_0") = S_ "testkern_0_mod.f90".
 Proof. vm_compute. repeat split. Qed.
